@@ -66,7 +66,7 @@ def c01(ctx):
     for cfg in ("B", "A"):
         db = ctx.db(cfg)
         for t in ("moments::Mean", "moments::Variance"):
-            r = numeric(ctx, db, t, ("count", "dim", "sign", "div", "shift") if cfg == "B" else ("count",),
+            r = numeric(ctx, db, t, ("count", "dim", "sign", "div", "shift") if cfg == "B" else ("count",), box=dict(VALUE_BOX, order=2),
                         laws=("L1", "L2", "L3", "L4") if cfg == "B" else ())
             if r:
                 n += 1
@@ -84,7 +84,7 @@ def c03(ctx):
     db = ctx.db("B")
     n = 0
     for t in ("moments::Skewness", "moments::Kurtosis"):
-        r = numeric(ctx, db, t, ("count", "dim", "sign", "div", "shift"), laws=("L1", "L2", "L3", "L4"))
+        r = numeric(ctx, db, t, ("count", "dim", "sign", "div", "shift"), laws=("L1", "L2", "L3", "L4"), box=dict(VALUE_BOX, order=4))
         if not r:
             continue
         n += 1
@@ -131,7 +131,10 @@ def c04(ctx):
 def merge_stability(ctx, db, t):
     """numerical structure of merge (and add) of one moment-family type: dimensions, shift behaviour
     (no intermediate carries a common offset to a power > 1) and division guards"""
-    return numeric(ctx, db, t, ("dim", "shift", "div"), only=("mean",))
+    order = {"moments::Mean": 1, "moments::Variance": 2, "moments::Skewness": 3, "moments::Kurtosis": 4, "Moments4": 4}.get(t)
+    if order is None:
+        order = int(t.split("::M")[-1])
+    return numeric(ctx, db, t, ("dim", "shift", "div"), only=("mean",), box=dict(VALUE_BOX, order=order))
 
 
 def c02(ctx):
@@ -622,7 +625,7 @@ def c08(ctx):
     for t, kind, wstats in (("weighted_mean::WeightedMean", "WeightedMean", ("mean", "sum_weights", "is_empty")),
                             ("weighted_mean::WeightedMeanWithError", "WeightedMeanWithError",
                              ("weighted_mean", "sum_weights", "sum_weights_sq"))):
-        r = numeric(ctx, db, t, ("dim", "sign", "div", "shift") + (("count",) if kind != "WeightedMean" else ()), weighted=True,
+        r = numeric(ctx, db, t, ("dim", "sign", "div", "shift") + (("count",) if kind != "WeightedMean" else ()), weighted=True, box=dict(VALUE_BOX, order=2),
                     laws=("L1", "L2", "L3", "L4"))
         if not r:
             continue
@@ -644,7 +647,7 @@ def c09(ctx):
     import num_rules as N
     import forward_rules as FW
     db = ctx.db("B")
-    r = numeric(ctx, db, "covariance::Covariance", ("count", "dim", "sign", "div", "shift"), pair=True, laws=("L1", "L2", "L3", "L4"))
+    r = numeric(ctx, db, "covariance::Covariance", ("count", "dim", "sign", "div", "shift"), pair=True, laws=("L1", "L2", "L3", "L4"), box=dict(VALUE_BOX, order=2))
     n = 0
     if r:
         n = 1
@@ -804,6 +807,22 @@ PROPS = {
             "explanation": "Proves for 40+ FromIterator/Extend impls (value, reference, pair), all Estimate impls and the harness concatenate! shapes: the result state is node-identical to add() in a loop for 0..2 (3 thorough) abstract items and the input iterator is exhausted; estimate() is exactly the headline accessor; concatenate! builds fields with their defaults, forwards x once to every field, and each statistic is exactly the underlying accessor; Default = new.",
             "level_text": "Identical effect summaries on abstract data imply bit-identical results.", "level_note": TB + "determinism of IEEE arithmetic; loops are item-uniform (checked up to 2-3 items)."},
 }
+
+_BOX = (" R-MAG (value box): at the corners of the property's value box (|x| in [1e-30, 1e30] capped by the no-overflow restriction, n in {2, 1e6}) "
+        "every product/quotient/power that contributes more than 1e-14 of a new field value or statistic is a representable f64, so an algebraically "
+        "identical regrouping whose factor underflows or overflows is reported.")
+for _p in ("C01", "C03", "C04", "C08", "C09"):
+    PROPS[_p]["explanation"] += _BOX
+PROPS["C02"]["explanation"] += (" The merge code itself is also held to the numeric-structure rules of C01 (R-DIM, R-DIV, R-SHIFT: no intermediate of merge carries the "
+                                 "common offset to a power > 1, i.e. no recombination through raw moments; R-MAG value box).")
+PROPS["C19"]["explanation"] += " The merge reached by reduce is held to R-DIM/R-DIV/R-SHIFT/R-MAG as in C02 (cancellation-free merge)."
+PROPS["C07"]["explanation"] += " The analysed small states are exactly what add() builds: each of the first adds stores the observation as given in the next slot and increments the count once (R-COUNT/R-P2 small-add)."
+PROPS["C10"]["explanation"] += " The n of the formulas is the number of observations: R-COUNT for add and merge of every type involved."
+PROPS["C13"]["explanation"] += (" Every Iterator method a crate-local iterator overrides besides next (nth, size_hint, count, last) is compared with the default built "
+                                 "from next for every prefix and argument (R-SIB); today there are no overrides.")
+for _p in PROPS:
+    PROPS[_p]["explanation"] += (" Functions of the anchored files whose body differs under another cargo feature configuration (std; serde+rayon+nightly; none) "
+                                 "are re-analysed under that configuration (R-CFG). An obligation none of whose instances can be decided fails closed (FLOOR).")
 
 for _pid in L0_FLOORS:
     PROPS[_pid]["run"] = with_law_floors(_pid, PROPS[_pid]["run"])
